@@ -390,6 +390,7 @@ type reqEvent struct {
 	Req      int        `json:"req"`
 	Mode     string     `json:"mode"`  // L long-lived, P persisted (fresh engine per request)
 	Fresh    bool       `json:"fresh"` // first Exec on this engine object
+	Pending  bool       `json:"pending"` // the engine object still owes the unwinding of a graceful end (its final page failed to render)
 	Input    string     `json:"input"`
 	Incls    string     `json:"incls"` // ok | bad (fails the input pattern) | long (> 255 bytes)
 	Pre      viseSnap   `json:"pre"`
@@ -552,6 +553,7 @@ func (h *engineHost) request(input string) *reqEvent {
 		// the engine object initialises the session in the first Exec that gets through init (an over-long input, or a
 		// pre-VM check that stops the request, leave it uninitialised): read from the object itself
 		ev.Fresh = !engineInitd(h.en)
+		ev.Pending = reflect.ValueOf(h.en).Elem().FieldByName("execd").Bool() && reflect.ValueOf(h.en).Elem().FieldByName("exiting").Bool()
 		en = h.en
 		ev.Pre = h.snapNow()
 	} else {
